@@ -27,7 +27,7 @@ def plPairsT : List (UInt64 × UInt64) → List (UInt64 × UInt64) → Bool × L
   | _, _ => (false, ["plPairs.length-mismatch(unreachable after the length test)"])
 
 mutual
-partial def equalT : E UInt64 → E UInt64 → Tr
+def equalT : E UInt64 → E UInt64 → Tr
   | .num x, .num y => ofB "equalX.num" (N.feq x y)
   | .ref k i, .ref k' j => if k = k' then ofB "equalX.ref.index" (i == j) else (.ff, ["equalX.ref.kind-ne"])
   | .un k a, .un k' b => if k = k' then (let r := equalT a b; (r.1, "equalX.un.rec" :: r.2)) else (.ff, ["equalX.un.kind-ne"])
@@ -56,12 +56,12 @@ partial def equalT : E UInt64 → E UInt64 → Tr
   | .bool x, .bool y => ofB "equalX.bool" (x == y)
   | .str _, .str _ => (.unsup, ["equalX.str-throws"])
   | _, _ => (.ff, ["equalX.layout-differs"])
-partial def equalListT : List (E UInt64) → List (E UInt64) → Tr
+def equalListT : List (E UInt64) → List (E UInt64) → Tr
   | [], [] => (.tt, ["equalList.nil-nil"])
   | [], _ :: _ => (.ff, ["equalList.left-shorter"])
   | _ :: _, [] => (.ff, ["equalList.right-shorter"])
   | a :: as, b :: bs => Tr.and (let r := equalT a b; (r.1, "equalList.cons-cons" :: r.2)) (fun _ => equalListT as bs)
-partial def equalArgsT : List (E UInt64) → List (E UInt64) → Tr
+def equalArgsT : List (E UInt64) → List (E UInt64) → Tr
   | a :: as, b :: bs =>
       Tr.and
         (if a.kind ≠ b.kind then (.ff, ["equalArgs.kind-ne"])
@@ -76,7 +76,7 @@ end
 variable (P : Prims UInt64)
 
 mutual
-partial def hashT : E UInt64 → Option UInt64 × List String
+def hashT : E UInt64 → Option UInt64 × List String
   | .num v => (some (combine (hashKind P .number) (P.hDbl v)), ["hashX.num"])
   | .ref k i => (some (combine (hashKind P (.ref k)) (P.hInt i)), ["hashX.ref"])
   | .un k a =>
@@ -110,7 +110,7 @@ partial def hashT : E UInt64 → Option UInt64 × List String
                   else let r := hashListT (hashKind P (.iter k)) as; (r.1, "hashX.iter" :: r.2)
   | .bool v => (some (combine (hashKind P .bool) (P.hBool v)), ["hashX.bool"])
   | .str s => (some (strFold P (hashKind P .string) s), [if (cstr s).length < s.length then "hashX.str.embedded-nul" else "hashX.str"])
-partial def hashListT : UInt64 → List (E UInt64) → Option UInt64 × List String
+def hashListT : UInt64 → List (E UInt64) → Option UInt64 × List String
   | h, [] => (some h, ["hashList.nil"])
   | h, a :: as =>
       match hashT a with
